@@ -25,7 +25,7 @@ Definition nneo : N := 5.                  (* accounts that may hold NEO *)
 (* entry script: no storage, no manifest -> only control flow and calls *)
 Fixpoint entry_ok (p : prog) : bool :=
   match p with
-  | Skip | Throw | Abort | Call _ _ _ => true
+  | Skip | Throw | Abort | CallV false _ _ _ => true
   | Seq a b => entry_ok a && entry_ok b
   | Try b c f => entry_ok b && oall entry_ok c && oall entry_ok f && (is_some c || is_some f)
   | _ => false
@@ -39,7 +39,7 @@ Fixpoint small (p : prog) : bool :=
   | MoveNeo to amt cb => (to <? nneo) && small cb
   | SetFee v => v <=? 100000000
   | Seq a b => small a && small b
-  | Call c fl b => small b
+  | CallV _ c fl b => small b
   | Try b c f => small b && oall small c && oall small f
   | _ => true
   end.
@@ -48,7 +48,7 @@ Fixpoint has_neo (p : prog) : bool :=
   | MoveNeo _ _ _ => true
   | Move _ _ cb => has_neo cb
   | Seq a b => has_neo a || has_neo b
-  | Call _ _ b => has_neo b
+  | CallV _ _ _ b => has_neo b
   | Try b c f => has_neo b || negb (oall (fun x => negb (has_neo x)) c) || negb (oall (fun x => negb (has_neo x)) f)
   | _ => false
   end.
